@@ -3,12 +3,13 @@
 # applies the seed there, runs the quick check(s) of its property (and closely related ones) with GOVC_REPO pointing
 # at the copy, and writes /verif/seeded/<seed>/detection.txt. (Same checks as `git -C /repo apply` + run + checkout,
 # without blocking /repo.)  usage: seed_matrix.sh [seed...]
-cd /verif
-related() { case $1 in C33) echo "C33 C27";; C27) echo "C27 C29";; C29) echo "C29 C27";; C35) echo "C35 C36";; C28) echo "C28 C33";; C06) echo "C06 C08 C07";; C07) echo "C07 C06";; C08) echo "C08 C07 C06";; C23) echo "C28";; *) echo "$1";; esac; }
+V=${VERIF_ROOT:-/verif}
+cd $V
+related() { case $1 in C33) echo "C33 C27";; C27) echo "C27 C29";; C29) echo "C29 C27";; C35) echo "C35 C36";; C28) echo "C28 C33";; C06) echo "C06 C08 C07";; C07) echo "C07 C06";; C08) echo "C08 C07 C06";; C23) echo "C23 C28";; C16) echo "C16 C29";; *) echo "$1";; esac; }
 claimed=$(python3 -c "import json;print(' '.join(c['property_id'] for c in json.load(open('MANIFEST.json'))['checks']))")
 seeds="$@"; [ -z "$seeds" ] && seeds=$(ls seeded)
 one() {
-  s=$1; p=${s%%-*}; d=/verif/seeded/$s
+  s=$1; p=${s%%-*}; d=$V/seeded/$s
   out=$d/detection.txt; : > $out
   patchfile=$d/patch.diff; [ -f $d/patch.ported.diff ] && patchfile=$d/patch.ported.diff
   tmp=$(mktemp -d /var/tmp/seedrun.XXXXXX)
@@ -17,7 +18,7 @@ one() {
   for q in $(related $p); do
     if echo " $claimed " | grep -q " $q "; then
       echo "## check $q" >> $out
-      GOVC_REPO=$tmp GOVC_SCRATCH=$tmp/.scratch GOVC_OUT=$tmp/.out bin/govc check $q 2>&1 | grep -E "^property|VIOLATION" | sed 's/replay=[^ ]* //' | cut -c1-250 >> $out
+      GOVC_REPO=$tmp GOVC_SCRATCH=$tmp/.scratch GOVC_OUT=$tmp/.out GOVC_VERIF=$V $V/bin/govc check $q 2>&1 | grep -E "^property|VIOLATION" | sed 's/replay=[^ ]* //' | cut -c1-250 >> $out
     else
       echo "## check $q: not claimed" >> $out
     fi
